@@ -455,6 +455,8 @@ def clear_replays(pid):
         except OSError:
             pass
 
+RANGE_SLICE_TAGS = ("range:", "slice:", "string:slice", "forin:over-", "forin:to-bound", "listcomp:over-", "listcomp2:over-", "fold:", "param:bounds-")
+
 def stream(rep, exe, tier, seed, n, knobs, twins, tag, small_heap=None):
     """generated programs (and their alpha-renamed twins) through I and S; disagreements are
     shrunk and reported.  Returns statistics."""
@@ -463,7 +465,7 @@ def stream(rep, exe, tier, seed, n, knobs, twins, tag, small_heap=None):
     st = dict(programs=0, runs=0, agree=0, rejected=0, skipped_model_crash=0, skipped_out_of_fuel=0, model_gap=0,
               disagree=0, twin_mismatch=0, clos_compared=0, clos_nonzero=0, clos_mismatch=0,
               outcomes=collections.Counter(), exceptions=collections.Counter(), exceptions_raised=collections.Counter(), constructs=collections.Counter(),
-              conds=0, nonconst_conds=0, progs_with_nonconst_cond=0, progs_with_output=0, samples=[])
+              conds=0, nonconst_conds=0, progs_with_nonconst_cond=0, progs_with_output=0, progs_with_ranges_or_slices=0, samples=[])
     chunk = 60
     done = 0
     reported = 0
@@ -509,6 +511,8 @@ def stream(rep, exe, tier, seed, n, knobs, twins, tag, small_heap=None):
                 st["programs"] += 1
                 for u in gs["used"]:
                     st["constructs"][u] += 1
+                if any(u.startswith(RANGE_SLICE_TAGS) for u in gs["used"]):
+                    st["progs_with_ranges_or_slices"] += 1
                 st["conds"] += gs["conds"]; st["nonconst_conds"] += gs["nonconst_conds"]
                 if gs["nonconst_conds"]:
                     st["progs_with_nonconst_cond"] += 1
